@@ -188,6 +188,41 @@ type c15Opts struct {
 	what       string // context for keys: "align", "trim", "dir", "shell", "sav", "wholerun"
 	settle     bool   // demand canonical separation, <=72 and a silent second pass for single-line paragraphs
 	secondPass func(lines []string) (acts []string, out []string, parsed []pkglint.VerifLayoutLine, panicked string)
+	// whole run: which fixer pkglint announced for a raw line (1-based line number of the file), for the key
+	kindAt map[int]string
+	// only the 72-column clause of the settle clauses (the pass may legitimately have left the
+	// alignment to the next run: canonical separation and a silent second pass are not due yet)
+	marginOnly bool
+}
+
+// c15Structure is the line structure of a file as the real loader sees it: the number of
+// physical lines of every logical line, in order.
+func c15Structure(ls []pkglint.VerifLayoutLine) []int {
+	out := make([]int, len(ls))
+	for i, l := range ls {
+		out[i] = len(l.Raw)
+	}
+	return out
+}
+
+// the kind of fix named by a note of pkglint
+func c15FixKindOfNote(note string) string {
+	switch {
+	case strings.HasPrefix(note, "Trailing whitespace."):
+		return "trim"
+	case strings.HasPrefix(note, "This directive should be indented by"):
+		return "dir"
+	case strings.HasPrefix(note, "Shell programs should be indented with a single tab."):
+		return "shell"
+	case strings.HasPrefix(note, "Unnecessary space after variable name"):
+		return "sav"
+	}
+	for _, n := range c15LayoutNotes {
+		if strings.HasPrefix(note, n) {
+			return "align"
+		}
+	}
+	return ""
 }
 
 // c15Property evaluates C15 on one observed (before, after) pair of raw line lists.
@@ -216,6 +251,42 @@ func (c *c15Checker) property(o c15Opts, before, after []string, pb, pa []pkglin
 			fail(key, fmt.Sprintf("%s changed more than blanks: %q -> %q", o.what, before[i], after[i]))
 			return false
 		}
+	}
+	// 2a. the line structure: the real loader, given the fixed text, groups the physical lines into
+	// the same logical lines (same number of logical lines, each with the same number of physical lines)
+	if sb, sa := c15Structure(pb), c15Structure(pa); fmt.Sprint(sb) != fmt.Sprint(sa) {
+		kind := o.what
+		// the first logical line that differs, and what pkglint said it fixes in its physical lines
+		// (the last one first: that is where a line is joined with the next)
+		raw, at, n := 0, -1, 1
+		for i := 0; i < len(sb) && i < len(sa) && at < 0; i++ {
+			if sb[i] != sa[i] {
+				at, n = raw, sb[i]
+			}
+			raw += sb[i]
+		}
+		if at < 0 {
+			at = raw
+		}
+		if o.kindAt != nil {
+			kind = "wholerun"
+			for ln := at + n; ln >= at+1; ln-- {
+				if k := o.kindAt[ln]; k != "" {
+					kind = k
+					break
+				}
+			}
+		}
+		lo, hi := at-1, at+3
+		if lo < 0 {
+			lo = 0
+		}
+		if hi > len(before) {
+			hi = len(before)
+		}
+		fail("C15/line-structure-changed/"+kind, fmt.Sprintf("%s: the file loaded again has another line structure: physical lines per logical line %v became %v; around line %d: %q -> %q",
+			o.what, sb, sa, at+1, before[lo:hi], after[lo:hi]))
+		return false
 	}
 	// 2. the same lines as re-parsed: kind, name, operator, value words, comment, raw line count
 	if len(pb) != len(pa) {
@@ -265,7 +336,7 @@ func (c *c15Checker) property(o c15Opts, before, after []string, pb, pa []pkglin
 				continue
 			}
 			sbv := l.Parts[0][2]
-			if !(c15AllTabs(sbv) || sbv == " ") {
+			if !(c15AllTabs(sbv) || sbv == " ") && !o.marginOnly {
 				fail("C15/noncanonical/"+o.what, fmt.Sprintf("%s: after one pass the value of %q is separated by %q (paragraph %q)", o.what, l.Raw[0], sbv, after))
 			}
 			bl, al := before[rawAt[i]], after[rawAt[i]]
@@ -289,7 +360,7 @@ func (c *c15Checker) property(o c15Opts, before, after []string, pb, pa []pkglin
 		}
 	}
 	// 5. a second pass changes nothing and reports nothing
-	if singleOnly && o.secondPass != nil {
+	if singleOnly && o.secondPass != nil && !o.marginOnly {
 		acts, out, _, pan := o.secondPass(after)
 		if pan != "" {
 			fail("C15/panic/second-pass/"+o.what, fmt.Sprintf("%s: second pass over %q: %s", o.what, after, pan))
@@ -953,7 +1024,8 @@ func (c *c15Checker) trimCase(lines []string) {
 	if d := pkglint.VerifVaralign(r1.Lines, "describe"+sfx); d.Panicked == "" {
 		for _, l := range d.Before {
 			last := l.Raw[len(l.Raw)-1]
-			if strings.TrimRight(last, " \t") != last {
+			// (a line whose text without the blanks would end in a backslash keeps them: /repo a0c5e27)
+			if t := strings.TrimRight(last, " \t"); t != last && !strings.HasSuffix(t, "\\") {
 				c.viol("C15/trim/left-over", fmt.Sprintf("CheckTrailingWhitespace left %q", last), true, c15Size(lines), replay)
 			}
 		}
@@ -1345,10 +1417,179 @@ func (c *c15Checker) unitOthers(rng *Rng, thorough bool) {
 				}
 			}
 		}
+		// variable names with blanks of their own inside ${...}: only the blanks in front of the operator may go,
+		// the name as re-parsed must be the same (several blank strings, also the one that occurs inside the name)
+		for _, name := range []string{"CONFIGURE_ARGS.${OPSYS:S, ,_,g}", "V.${X:M* *}", "A.${B:C/ /_/g}", "N.${P:S,\t,_,}", "W.${Q:S,  ,_,g}", "ESC\\#.${R:S, ,,}", "X.${Y:S, ,_,:S,  ,-,}"} {
+			for _, sp := range []string{" ", "  ", "\t", " \t", "\t "} {
+				for _, op := range []string{"=", "+=", "?="} {
+					for _, b := range []string{"", "\t", " ", "\t\t"} {
+						c.savCase([]string{name + sp + op + b + "--enable-x"}, name, sp, op)
+						c.savCase([]string{"#" + name + sp + op + b + "--enable-x", "OTHER=\tv"}, name, sp, op)
+						c.res.Count("sav_name_with_blanks", 2)
+					}
+				}
+			}
+		}
 		c.savCase([]string{"VAR =\tvalue \\", "\tVAR =\tmore"}, "VAR", " ", "=")
 		c.savCase([]string{" A = A = x"}, "A", " ", "=")
 	}
 	c.flushDeferred()
+}
+
+// unitBackslashBlank: lines that end in a backslash followed by blanks.  Such a line is NOT continued
+// (the loader looks at the very end of the line); a fixer that removes or moves those blanks changes the
+// line structure.  Every fixer gets them: as a line followed by another assignment, by a comment, as the
+// last line (with and without final newline), inside a continuation line, with one, two and three backslashes.
+func (c *c15Checker) unitBackslashBlank(rng *Rng, thorough bool) {
+	ends := []string{"\\ ", "\\\t", "\\  ", "\\ \t", "\\\\ ", "\\\\\\ ", "\\\\\t "}
+	bodies := []string{"VAR=\tvalue ", "VAR=\tvalue", "VAR=", "VAR=\t", "# comment ", "#", "\techo hello ", ".if 1 ", "VAR =\tvalue ", "LONGER_NAME=   value\t", "V+=a "}
+	follow := [][]string{{"OTHER=\tx"}, {"# comment"}, {""}, {"OTHER=\tx \\", "\ty"}, {"\techo next"}, nil}
+	for _, end := range ends {
+		for _, body := range bodies {
+			l := body + end
+			c.res.Count("backslash_blank_cases", 1)
+			for _, fo := range follow {
+				ls := append([]string{l}, fo...)
+				c.trimCase(ls)
+				c.alignFragment(append([]string{"A=\t1"}, ls...), "backslash-blank")
+				c.alignFragment(ls, "backslash-blank")
+				if fo == nil {
+					c.withNoFinalNewline(true, func() { c.trimCase(ls); c.alignFragment(ls, "backslash-blank") })
+				}
+			}
+			// inside a continuation line: as a middle line it ends the logical line early, as the last line it is the end
+			c.trimCase([]string{"CONT=\ta \\", "\tb " + end, "OTHER=\tx"})
+			c.trimCase([]string{"CONT=\ta \\", "\tb \\", "\t" + l, "# comment"})
+			c.alignFragment([]string{"CONT=\ta \\", "\tb " + end, "OTHER=\tx"}, "backslash-blank")
+			c.alignFragment([]string{"CONT=\ta \\", "\tb \\", "\tc " + end, "OTHER=\tx"}, "backslash-blank")
+			c.alignFragment([]string{"SHORT=\tv", "CONT=\ta \\", "    b " + end, "LONGER_NAME=\tx"}, "backslash-blank")
+		}
+		// the other compact fixers on such lines
+		for depth := 0; depth <= 2; depth++ {
+			c.dirCase([]string{".  if 1 " + end, ". endif"}, []int{depth, depth})
+			c.dirCase([]string{".if 1", ".   else " + end, ".endif " + end}, []int{-1, depth, depth})
+			c.dirCase([]string{".if 1", ".\tinclude \"x.mk\" " + end, ".endif"}, []int{-1, depth, -1})
+		}
+		for _, tabs := range []string{"\t", "\t\t", "\t\t\t"} {
+			c.shellCase([]string{"target:", tabs + "echo hello " + end, tabs + "echo next"})
+			c.shellCase([]string{"target:", tabs + "echo hello \\", tabs + "\tmore " + end, "\tlast"})
+			c.shellCase([]string{"target:", tabs + end, "OTHER=\tx"})
+		}
+		for _, sp := range []string{" ", "\t", "  "} {
+			c.savCase([]string{"VAR" + sp + "=\tvalue " + end, "OTHER=\tx"}, "VAR", sp, "=")
+			c.savCase([]string{"VAR" + sp + "=" + end, "OTHER=\tx"}, "VAR", sp, "=")
+			c.savCase([]string{"#VAR" + sp + "+=\tvalue " + end}, "VAR", sp, "+=")
+		}
+	}
+	n := 300
+	if thorough {
+		n = 6000
+	}
+	for i := 0; i < n; i++ {
+		var ls []string
+		for k := 0; k < 1+rng.Intn(3); k++ {
+			as := c15RandomAssign(rng, true)
+			j := rng.Intn(len(as))
+			as[j] = strings.TrimRight(as[j], "\\ \t") + Pick(rng, []string{" ", "", "\t"}) + Pick(rng, ends)
+			ls = append(ls, as...)
+		}
+		c.withNoFinalNewline(i%7 == 0, func() {
+			c.trimCase(ls)
+			c.alignFragment(ls, "backslash-blank-random")
+		})
+		c.res.Count("backslash_blank_cases", 1)
+	}
+	c.flushModel()
+	c.flushDeferred()
+}
+
+// alignAfterValueFix: another fix changes the VALUE of a line after VaralignBlock.Process has split
+// it (in pkglint: SubstContext turns SUBST_STAGE.x= post-patch into pre-configure, 3 bytes longer).
+// Finish then works on parts that are out of date.  The property is judged on the final lines of
+// the pass against the lines with only the value fix applied (what the file would be without
+// VaralignBlock); the model gets the changed texts with the parts of the split.
+func (c *c15Checker) alignAfterValueFix(lines []string) {
+	replay := map[string]any{"kind": "align+valuefix", "lines": c15hxs(lines)}
+	c.res.Evaluations++
+	c.res.Count("align_after_value_fix", 1)
+	r1 := pkglint.VerifVaralign(lines, "align+valuefix")
+	if r1.Panicked != "" {
+		c.viol("C15/panic/align", fmt.Sprintf("VaralignBlock after a value fix over %q: %s", lines, r1.Panicked), true, c15Size(lines), replay)
+		return
+	}
+	fixed := make([]string, len(lines))
+	for i, l := range lines {
+		fixed[i] = l
+		if strings.Count(l, "post-patch") == 1 {
+			fixed[i] = strings.Replace(l, "post-patch", "pre-configure", 1)
+		}
+	}
+	pb := pkglint.VerifVaralign(fixed, "describe")
+	pa := pkglint.VerifVaralign(r1.Lines, "describe")
+	if pb.Panicked != "" || pa.Panicked != "" {
+		return
+	}
+	c.property(c15Opts{what: "align", settle: true, marginOnly: true}, fixed, r1.Lines, pb.Before, pa.Before, replay)
+	bad := false
+	for _, k := range c.lastFailKeys {
+		if !strings.HasPrefix(k, "C15/widen72/") {
+			bad = true
+		}
+	}
+	// the model: the parts as split from the original lines, the texts as the value fix left them
+	view := make([]pkglint.VerifLayoutLine, len(r1.Before))
+	at := 0
+	for i, l := range r1.Before {
+		v := l
+		v.Raw = append([]string{}, l.Raw...)
+		for k := range v.Raw {
+			if at < len(fixed) {
+				v.Raw[k] = fixed[at]
+			}
+			at++
+		}
+		view[i] = v
+	}
+	if at != len(fixed) {
+		return
+	}
+	if len(r1.Actions) > 0 {
+		c.distinct["valuefix\n"+strings.Join(lines, "\n")] = true
+	}
+	c.reqs = append(c.reqs, c15FileRequest(view))
+	c.reqImpl = append(c.reqImpl, r1.Lines)
+	c.reqIn = append(c.reqIn, lines)
+	c.reqNonl = append(c.reqNonl, false)
+	nact := 0
+	for _, a := range r1.Actions {
+		if !strings.Contains(a, "post-patch") { // the value fix itself is not VaralignBlock's action
+			nact++
+		}
+	}
+	c.reqActs = append(c.reqActs, nact)
+	c.reqBad = append(c.reqBad, bad)
+}
+
+// unitValueFix: paragraphs in which a value grows by 3 bytes between Process and Finish, around the
+// right margin: the line with the old value would end at column 66..76 after the alignment
+func (c *c15Checker) unitValueFix(rng *Rng, thorough bool) {
+	for _, stage := range []string{"SUBST_STAGE.x", "SUBST_STAGE.abc", "ST.x"} {
+		for _, other := range []string{"SUBST_MESSAGE.x", "SUBST_MESSAGE.abc", "SUBST_FILES.x", "A_VERY_LONG_VARIABLE_NAME.x", "B"} {
+			for n := 10; n <= 48; n++ {
+				for _, sep := range []string{"\t", " ", "\t\t"} {
+					first := stage + "=" + sep + "post-patch # " + strings.Repeat("c", n)
+					c.alignAfterValueFix([]string{"SUBST_CLASSES+=\tx", first, other + "=\tFixing the paths.", "SUBST_SED.x=\t-e s,from,to,"})
+					c.alignAfterValueFix([]string{first, other + "=\tv"})
+					c.alignAfterValueFix([]string{other + "=\tv", stage + "=" + sep + "post-patch " + strings.Repeat("w", n)})
+				}
+			}
+		}
+	}
+	// the value fix on a continuation line, on a commented-out line, twice in a paragraph
+	c.alignAfterValueFix([]string{"SUBST_STAGE.x=\tpost-patch \\", "\tmore", "SUBST_MESSAGE.x=\tv"})
+	c.alignAfterValueFix([]string{"#SUBST_STAGE.x=\tpost-patch", "SUBST_MESSAGE.x=\tv"})
+	c.alignAfterValueFix([]string{"SUBST_STAGE.x=\tpost-patch", "SUBST_STAGE.y=\tpost-patch", "SUBST_MESSAGE.x=\tv"})
+	c.flushModel()
 }
 
 func runC15(ctx *Ctx) *Result {
@@ -1365,6 +1606,14 @@ func runC15(ctx *Ctx) *Result {
 		return res
 	}
 	c.unitOthers(rng.Fork(), thorough)
+	if res.Broken != "" {
+		return res
+	}
+	c.unitBackslashBlank(rng.Fork(), thorough)
+	if res.Broken != "" {
+		return res
+	}
+	c.unitValueFix(rng.Fork(), thorough)
 	if res.Broken != "" {
 		return res
 	}
@@ -1385,7 +1634,9 @@ func runC15(ctx *Ctx) *Result {
 		{"whole_files", 50}, {"whole_autofix_lines", 300}, {"whole_second_pass_checked", 20},
 		// round 4: the byte-exact blank class, the right margin, files without final newline
 		{"trim_exotic_cases", 1500}, {"align_no_final_newline", 5000}, {"paragraphs_right_margin", 2000}, {"paragraphs_exotic_whitespace", 2000}, {"paragraphs_after_history", 600},
-		{"dir_exotic_cases", 100}, {"vm_compute_cross_checked", 150}, {"whole_extra_files", 50}, {"whole_extra_no_final_newline", 15}, {"whole_extra_crlf", 15}} {
+		{"dir_exotic_cases", 100}, {"vm_compute_cross_checked", 150}, {"whole_extra_files", 50}, {"whole_extra_no_final_newline", 15}, {"whole_extra_crlf", 15},
+		// round 5: lines ending in backslash + blanks (not continued), in every fixer and in the whole run
+		{"backslash_blank_cases", 300}, {"whole_feat:backslash-blank", 20}, {"sav_name_with_blanks", 500}, {"align_after_value_fix", 1000}} {
 		if dist(f.key) < f.min && res.Broken == "" && len(res.Violations) == 0 {
 			res.Broken = fmt.Sprintf("coverage floor missed: %s = %d < %d", f.key, dist(f.key), f.min)
 		}
@@ -1409,6 +1660,9 @@ func replayC15(ctx *Ctx, rep map[string]any) *Result {
 	switch kind {
 	case "align":
 		c.alignFragment(lines, "replay")
+		c.flushModel()
+	case "align+valuefix":
+		c.alignAfterValueFix(lines)
 		c.flushModel()
 	case "trim":
 		c.trimCase(lines)
